@@ -293,6 +293,27 @@ def shard(ctx):
                 what = "abstraction step %s changed verdicts (base, variant) %s" % (detail, diff)
             ctx.violation(sig, "%s\n--- base\n%s--- variant\n%s--- doc %s" % (what, base_text, text, docs[:300]),
                           {"kind": "pair", "a": base_text, "b": text, "data": docs})
+    # ---- call volume: many calls of a parameterised rule in one evaluation (per element of a long list, and in sequence) == the inlined body
+    if ctx.mine(4):
+        for nel in (3, 70, 200):
+            big = {"l": [{"n": i % 5, "s": "v%d" % i} for i in range(nel)], "k": 1}
+            bigs = json.dumps(big)
+            call = ("rule p(x) {\n    %x.n in [0, 1, 2, 3, 4]\n    %x.s exists\n}\nrule q(y) {\n    p(%y)\n}\n"
+                    "rule each {\n    l[*] {\n        p(this)\n    }\n}\nrule nested {\n    l[*] {\n        q(this)\n    }\n}\n"
+                    "rule seq {\n" + "".join("    p(l[%d])\n" % (i % nel) for i in range(90)) + "}\n"
+                    "rule bad {\n    l[*] {\n        not p(this)\n    }\n}\n")
+            inline = ("rule each {\n    l[*] {\n        this.n in [0, 1, 2, 3, 4]\n        this.s exists\n    }\n}\nrule nested {\n    l[*] {\n        this.n in [0, 1, 2, 3, 4]\n        this.s exists\n    }\n}\n"
+                      "rule seq {\n" + "".join("    l[%d].n in [0, 1, 2, 3, 4]\n    l[%d].s exists\n" % (i % nel, i % nel) for i in range(90)) + "}\n"
+                      "rule bad {\n    l[*] {\n        this.n not in [0, 1, 2, 3, 4] or this.s !exists\n    }\n}\n")
+            for rep in range(2):        # twice in the same worker process: nothing may accumulate across evaluations either
+                sa, _ = status_map(ctx.w, call, bigs)
+                sb, _ = status_map(ctx.w, inline, bigs)
+                ctx.res.cases += 1
+                ctx.res.counts["call_volume_cases"] += 1
+                if sa != sb:
+                    ctx.violation("inline:call-volume", "%d elements: with calls %s, inlined %s" % (nel, sa, sb), {"kind": "pair", "a": call, "b": inline, "data": bigs})
+                else:
+                    ctx.res.distinct.add(("call-volume", nel, json.dumps(sa, sort_keys=True)[:60]))
     # ---- key interpolation matrix: `x.%k OP` == `x.<key> OP` for every unary operator / comparison x value class x scope of the let
     if ctx.mine(2):
         kdoc = {"x": {"el": [], "em": {}, "es": "", "l": [1, 2], "m": {"a": 1}, "s": "ab", "n": 5, "nul": None, "b": True,
